@@ -36,6 +36,7 @@ type snapshot struct {
 	Issued [][]issued // per key: all writes issued so far (acknowledged or in flight)
 	PreGC  [][]Alt    // C07: model state of every key when the enclosing pass started
 	Stale  bool       // C07: a data file rewritten in place still carries its stale tail
+	GCWritten map[int]bool // C07: keys written through the traffic connection during the enclosing pass (so far, incl. in flight)
 	Kind2  string     // second life: how it was killed
 	Ops2   int        // second life: operations issued
 }
@@ -54,6 +55,17 @@ type crashExec struct {
 	stale    map[string]bool  // C07: files written below their old size and not truncated yet
 	cases    int64
 	dcases   map[string]bool
+	// C07: client writes placed inside the pass (second connection)
+	trafOps  []Op
+	trafNext int
+	trafReq  bool
+	trafBusy bool
+	trafKey  int
+	// C07: clean shutdown started during the pass; the process exits when Close returns
+	closeAt  int
+	gcEvN    int
+	closeReq bool
+	closing  bool
 }
 
 func faultLabel(ev *simrt.FSEvent) string {
@@ -68,7 +80,10 @@ func (c *crashExec) issuedNow() [][]issued {
 			out[k] = append(out[k], issued{ID: w.ID, Val: w.Val, Flag: w.Flag, Tomb: w.Tomb})
 		}
 	}
-	if op := x.inflight; op != nil {
+	for _, op := range []*Op{x.inflight, x.inflightT} {
+		if op == nil {
+			continue
+		}
 		switch op.Kind {
 		case "set":
 			out[op.K] = append(out[op.K], issued{ID: op.ID, Val: makeValue(op.V, op.vid()), Flag: op.Flag})
@@ -81,7 +96,9 @@ func (c *crashExec) issuedNow() [][]issued {
 	return out
 }
 
-func (c *crashExec) take(ev *simrt.FSEvent, torn int) {
+func (c *crashExec) take(ev *simrt.FSEvent, torn int) { c.takeL(ev, torn, "") }
+
+func (c *crashExec) takeL(ev *simrt.FSEvent, torn int, forced string) {
 	x := c.x
 	stale := len(c.stale) > 0
 	if c.prop == "C07" && x.g != nil && x.g.H != nil && len(x.g.H.VerifStaleTail()) > 0 {
@@ -107,15 +124,27 @@ func (c *crashExec) take(ev *simrt.FSEvent, torn int) {
 			label = "torn-data-write-unaligned"
 		}
 	}
-	s := &snapshot{Dir: d, Seq: ev.Seq, Kind: label, Torn: torn, OpID: x.curOp, InGC: x.inGC, Issued: c.issuedNow(), PreGC: c.preGCAlts, Stale: stale}
+	if forced != "" {
+		label = forced
+	}
+	s := &snapshot{Dir: d, Seq: ev.Seq, Kind: label, Torn: torn, OpID: x.curOp, InGC: x.inGC || forced != "", Issued: c.issuedNow(), PreGC: c.preGCAlts, Stale: stale}
+	if len(x.gcWritten) > 0 {
+		s.GCWritten = map[int]bool{}
+		for k := range x.gcWritten {
+			s.GCWritten[k] = true
+		}
+	}
 	c.snaps = append(c.snaps, s)
 	x.out.fault(label)
 }
 
 func (c *crashExec) hook(g *Gen, ev *simrt.FSEvent) {
 	x := c.x
-	if c.prop == "C07" && !(x.inGC && ev.Tag == "gc") {
+	if c.prop == "C07" && !(x.inGC && (ev.Tag == "gc" || c.trafOps != nil || c.closing)) {
 		return
+	}
+	if c.prop == "C07" && ev.Tag == "gc" {
+		c.placeInPass(g, ev)
 	}
 	c.evCount++
 	if os.Getenv("VERIF_DEBUG") != "" {
@@ -190,6 +219,7 @@ func runCrash(plan *Plan, tape *simrt.Tape) *Outcome {
 		x.fsHook = c.hook
 		x.noFinalRestart = true
 		if plan.Prop == "C07" {
+			x.gcHold = func() bool { return c.closing }
 			x.gcHook = func(phase string, op Op, begin, end int) {
 				if phase == "before" {
 					c.preGCAlts = nil
@@ -197,6 +227,7 @@ func runCrash(plan *Plan, tape *simrt.Tape) *Outcome {
 						c.preGCAlts = append(c.preGCAlts, append([]Alt(nil), km.Alts...))
 					}
 					c.gcSeen = true
+					c.startInPass(op)
 					c.preSize = map[string]int64{}
 					c.stale = map[string]bool{}
 					for name, sz := range listFiles(x.sim.Dir) {
@@ -299,6 +330,13 @@ func (c *crashExec) recoverGen(s *snapshot, gen int, extra [][]issued) {
 	x := c.x
 	plan := x.plan
 	c.cases++
+	if x.viol == nil {
+		defer func() {
+			if v := x.viol; v != nil && c.prop == "C07" && s.InGC && s.Stale && !strings.HasPrefix(v.Sub, "stale-tail/") {
+				v.Sub = "stale-tail/" + v.Sub
+			}
+		}()
+	}
 	sim2 := NewSim(plan.Cfg, s.Dir, x.sim.Tape)
 	sim2.Cfg.Background = false
 	issuedAll := s.Issued
@@ -422,7 +460,12 @@ func (c *crashExec) recoverGen(s *snapshot, gen int, extra [][]issued) {
 			newest = &recs[len(recs)-1]
 		}
 		kd := fmt.Sprintf("%s: key k%d %q", desc, k, trunc(string(key), 30))
-		if c.prop == "C07" && s.InGC {
+		if c.prop == "C07" && s.InGC && s.GCWritten[k] {
+			// written during the pass: outside C07's quantifier ("every key that was not written
+			// during the GC"); the kill oracle of C06 applies to it
+			x.out.probe("c07-key-written-during-pass-checked-as-c06")
+			kd += " (written during the pass)"
+		} else if c.prop == "C07" && s.InGC {
 			c.checkPreGC(s, kd, k, r.hit, r.val, r.flag, r.err)
 			if x.viol != nil {
 				if s.Stale {
@@ -597,6 +640,155 @@ func (c *crashExec) secondLife(g *Gen, sim2 *Sim, cl *PClient, rr *Rng, pIssued 
 	}
 }
 
+// placeInPass (C07) runs in the pass's task, before one of its disk mutations is performed.
+// (1) A pre-generated client write may be placed here through a second connection: at a data
+// write (the pass has decided to keep the record and has not repointed the tree yet) the pass is
+// parked until the write is acknowledged, at any other mutation the write is merely released and
+// the scheduler interleaves it with the pass. (2) A clean shutdown may be started here.
+func (c *crashExec) placeInPass(g *Gen, ev *simrt.FSEvent) {
+	x := c.x
+	c.gcEvN++
+	if c.closeAt > 0 && c.gcEvN == c.closeAt {
+		c.closeReq = true
+	}
+	if c.trafOps == nil || c.trafBusy || c.trafReq || c.trafNext >= len(c.trafOps) {
+		return
+	}
+	if g.W.Choose(simrt.StreamFault, 3) != 1 {
+		return
+	}
+	c.trafKey = -1
+	dataWrite := ev.Kind == simrt.FSWrite && strings.HasSuffix(ev.Path, ".data") && len(ev.Data) >= recHdr
+	if dataWrite {
+		if rec, ok := refDecodeAt(ev.Data, 0, 250, 1<<22); ok {
+			for i, key := range x.plan.Keys {
+				if string(key) == string(rec.Key) {
+					c.trafKey = i
+				}
+			}
+		}
+	}
+	c.trafReq = true
+	if dataWrite {
+		c.trafBusy = true
+		g.W.WaitCond("gc-parked-for-traffic", func() bool { return !c.trafReq })
+		c.trafBusy = false
+		x.out.probe("c07-write-placed-at-relocation-write")
+	} else {
+		x.out.probe("c07-write-released-at:" + simrt.FSKindName(ev.Kind) + ":" + fileClass(ev.Path))
+	}
+}
+
+// startTraffic / startCloser are called when a pass of a C07 world is about to be requested.
+func (c *crashExec) startInPass(op Op) {
+	x := c.x
+	g := x.g
+	w := g.W
+	c.trafOps, c.trafNext, c.trafReq, c.trafBusy, c.trafKey = nil, 0, false, false, -1
+	c.closeAt, c.gcEvN, c.closeReq, c.closing = op.CloseAt, 0, false, false
+	x.gcWritten = nil
+	if len(op.Traffic) > 0 {
+		c.trafOps = op.Traffic
+		x.gcWritten = map[int]bool{}
+		w.GoHarness("gc-traffic", func() {
+			var cl *PClient
+			for {
+				w.WaitCond("traffic-wait", func() bool { return c.trafReq || !x.inGC })
+				if cl == nil && x.inGC {
+					cl = g.NewConn() // (a scheduling point)
+				}
+				if !c.trafReq || !x.inGC {
+					// the pass is over (the scheduler may have postponed this task for long): the main
+					// client is active again, nothing may be written beside it
+					c.trafReq = false
+					return
+				}
+				c.trafficOp(cl, c.trafOps[c.trafNext]) // marks the write in flight before its first scheduling point
+				c.trafNext++
+				c.trafReq = false
+			}
+		})
+	}
+	if op.CloseAt > 0 {
+		w.GoHarness("closer", func() {
+			w.WaitCond("close-wait", func() bool { return c.closeReq || !x.inGC })
+			if !c.closeReq || x.viol != nil || !x.inGC {
+				// (pass already over: the main client has gone on, a shutdown now would be a
+				// different history than the one the snapshot's bookkeeping describes)
+				return
+			}
+			x.out.fault("shutdown-during-gc")
+			c.closing = true
+			x.closingInGC = true
+			g.H.Close()
+			if x.inGC {
+				x.out.probe("exit-after-shutdown-while-pass-still-running")
+			} else {
+				x.out.probe("pass-finished-before-shutdown-returned")
+			}
+			c.takeL(&simrt.FSEvent{Seq: w.FSSeq(), Off: -1}, -1, "exit-after-shutdown-during-gc")
+			x.exited = true
+			w.Exit(simrt.StatusKilled, "exit after shutdown during GC")
+		})
+	}
+}
+
+// trafficOp performs one client write on the traffic connection and applies it to the model
+// (the main client is idle while a pass runs, so model updates stay sequential).
+func (c *crashExec) trafficOp(cl *PClient, op Op) {
+	x := c.x
+	k := op.K % len(x.plan.Keys)
+	if op.At == 1 && c.trafKey >= 0 {
+		k = c.trafKey // the key whose record the pass is relocating right now
+	}
+	km := x.m.Keys[k]
+	if km.Unserved || km.Collide || x.tainted[k] {
+		return
+	}
+	op.K = k
+	x.gcWritten[k] = true
+	x.inflightT = &op
+	defer func() { x.inflightT = nil }()
+	t0 := x.nowUnix()
+	key := x.key(k)
+	switch op.Kind {
+	case "set":
+		val := makeValue(op.V, op.vid())
+		r := cl.Do(cmdSet("set", key, 0, 0, val, false))
+		if r.Budget {
+			x.fail("INCONCLUSIVE", "reply-step-budget")
+			return
+		}
+		if r.Status != "STORED" {
+			x.failSub("R-status", replySub("set", r), fmt.Sprintf("%s (placed inside the pass) answered %s", op, r))
+			return
+		}
+		km.Set(x.m, op.ID, val, 0, 0, t0)
+		x.writes++
+	case "del":
+		r := cl.Do(cmdDelete(key))
+		if r.Budget {
+			x.fail("INCONCLUSIVE", "reply-step-budget")
+			return
+		}
+		if r.Status != "DELETED" && r.Status != "NOT_FOUND" {
+			x.failSub("R-status", replySub("delete", r), fmt.Sprintf("%s (placed inside the pass) answered %s", op, r))
+			return
+		}
+		if rule, msg := km.Delete(op.ID, t0, r.Status == "DELETED"); rule != "" {
+			x.fail(rule, fmt.Sprintf("%s (placed inside the pass): %s", op, msg))
+			return
+		}
+	}
+	t1 := x.nowUnix()
+	for i := range km.Alts {
+		if km.Alts[i].WriteID == op.ID {
+			km.Alts[i].TSHi = t1
+		}
+	}
+	x.out.probe("c07-client-" + op.Kind + "-during-pass")
+}
+
 func isNumber(b []byte) bool {
 	if len(b) == 0 || len(b) > 22 {
 		return false
@@ -702,6 +894,32 @@ func genCrashPlan(prop string, seed uint64, tier string) *Plan {
 		}
 		if p.Ops[i].Kind == "gc" && !c.served(p.Ops[i].GCBucket) {
 			p.Ops[i].GCBucket = c.Served[0]
+		}
+	}
+	if prop == "C07" {
+		// what else happens during a pass: nothing (2/5), client writes through a second
+		// connection (2/5), a clean shutdown started in the middle of it (1/5)
+		for i := range p.Ops {
+			op := &p.Ops[i]
+			if op.Kind != "gc" || op.Pretend {
+				continue
+			}
+			switch r.Pick(0, 0, 1, 1, 2) {
+			case 1:
+				for j := r.Range(1, 6); j > 0; j-- {
+					t := Op{ID: 800000 + op.ID*10 + j, Kind: "set", K: r.Intn(len(p.Keys)), At: r.Pick(0, 1, 1),
+						V: ValSpec{Class: r.Pick(VConst, VText, VRandom), Len: r.Pick(8, 10, 40, 200, 230, 600), Seed: uint32(r.U64())}}
+					if int64(t.V.Len) > c.BodyMax {
+						t.V.Len = int(c.BodyMax)
+					}
+					if r.Bool(1, 4) {
+						t.Kind = "del"
+					}
+					op.Traffic = append(op.Traffic, t)
+				}
+			case 2:
+				op.CloseAt = r.Pick(1, 2, 3, 5, 8, 13, 21, 40)
+			}
 		}
 	}
 	if tier == "thorough" {
